@@ -1050,7 +1050,7 @@ def sigassign_program(rng, n_stmts):
         body.append(text)
         return len(body) - 1
     for _ in range(n_stmts):
-        k = rng.randrange(16)
+        k = rng.randrange(18)
         if k == 0:      # scalar, not quadratic, 0..3 constraints mentioning it (and a decoy with a longer name)
             sname = fresh("s")
             decl.append(f"signal {sname}; signal {sname}x;")
@@ -1150,6 +1150,16 @@ def sigassign_program(rng, n_stmts):
             a = emit(f"    {sname} <-- in \\ 3;")
             emit("  }")
             pending.append((a, 1, []))
+        elif k == 15:   # right-to-left tuple form
+            s1, s2 = fresh("g"), fresh("g")
+            decl.append(f"signal {s1}; signal {s2};")
+            pending.append((emit(f"  (in \\ 2, in2 \\ 3) --> ({s1}, {s2});"), 2, None))
+        elif k == 16:   # right-to-left assignment of an array element and of a component input
+            sname, cname = fresh("h"), fresh("ch")
+            decl.append(f"signal {sname}[2]; component {cname} = Sub();")
+            pending.append((emit(f"  in \\ 2 --> {sname}[1];"), 1, None))
+            pending.append((emit(f"  in2 --> {cname}.a;"), 1, None))
+            emit(f"  {cname}.b <== in;")
         elif k == 13:   # tuple form: one finding per assigned signal
             s1, s2 = fresh("p"), fresh("p")
             decl.append(f"signal {s1}; signal {s2};")
@@ -1224,7 +1234,7 @@ def suite_sigassign(exe, tier, seed):
     finally:
         shutil.rmtree(d, ignore_errors=True)
     return {"unit": "e2e-sigassign", "evaluations": evals, "distinct_nontrivial": nontrivial, "exhaustive": False,
-            "rule": "the real CLI on generated templates (16 statement shapes: scalar, quadratic, `-->`, array element in for/while loops, matrix element under a branch, component and component-array inputs, declaration with initialisation, two statements on a line, both branches, anonymous component with one and with two named `<--` inputs, tuple form, same-named signals in sibling scopes, non-signal statements as decoys; a custom template and a function next to it): per source line, the number of CS0005/CS0013 findings anchored there equals the number of `<--`/`-->` statements on it, none anywhere else; for scalar signals a CS0005 finding's related locations are exactly the lines of the `===` constraints mentioning that signal (a signal with a longer name is the decoy)",
+            "rule": "the real CLI on generated templates (18 statement shapes: scalar, quadratic, `-->`, array element in for/while loops, matrix element under a branch, component and component-array inputs, declaration with initialisation, two statements on a line, both branches, anonymous component with one and with two named `<--` inputs, tuple form in both directions, `-->` into array elements and component inputs, same-named signals in sibling scopes, non-signal statements as decoys; a custom template and a function next to it): per source line, the number of CS0005/CS0013 findings anchored there equals the number of `<--`/`-->` statements on it, none anywhere else; for scalar signals a CS0005 finding's related locations are exactly the lines of the `===` constraints mentioning that signal (a signal with a longer name is the decoy)",
             "bound": f"{n_prog} generated programs, up to {12 if tier == 'quick' else 30} shapes each (seeded)", "samples": samples, "violations": viol}
 
 
